@@ -132,6 +132,20 @@ func c06Draw(rt *rapid.T) c06Case {
 
 // runC06 prepares a canary, applies the case and runs 1+len(Steps) canary syncs through the real Reconcile.
 func runC06(k c06Case) (vs []mon.V, evaluated int, err error) {
+	vs, obs, err := runC06Order(k, nil)
+	return vs, len(obs), err
+}
+
+// c06Obs is what one canary sync left in the replica-set status.
+type c06Obs struct {
+	Failed, Paused          bool
+	RestartFirst, RestartAt string // PodRestarting lastTransitionTime / lastUpdateTime ("" = no condition)
+}
+
+// runC06Order is runC06 with status.canary.nodes permuted (the pods stay on their nodes): the list is a set,
+// so the order in which the canary pods are evaluated must not matter.
+func runC06Order(k c06Case, perm []int) (vs []mon.V, obs []c06Obs, err error) {
+	evaluated := 0
 	c := sim.New(sim.Options{})
 	for i := 0; i < 4; i++ {
 		c.AddNode(fmt.Sprintf("n%d", i), map[string]string{"zone": "a"}, nil)
@@ -155,11 +169,18 @@ func runC06(k c06Case) (vs []mon.V, evaluated int, err error) {
 	e := c.EDS("ns1", "foo")
 	crs := p.RS['C']
 	if e == nil || e.Status.Canary == nil || e.Status.Canary.ReplicaSet != crs || len(e.Status.Canary.Nodes) != 3 {
-		return nil, 0, fmt.Errorf("harness: canary not set up: %+v", e.Status)
+		return nil, nil, fmt.Errorf("harness: canary not set up: %+v", e.Status)
 	}
 	c.Advance(time.Hour)
 	now := c.Now()
-	nodes := e.Status.Canary.Nodes
+	nodes := append([]string(nil), e.Status.Canary.Nodes...)
+	if perm != nil {
+		c.MutateEDS("ns1", "foo", func(x *edsv1.ExtendedDaemonSet) {
+			for i, j := range perm {
+				x.Status.Canary.Nodes[i] = nodes[j]
+			}
+		})
+	}
 	podNames := [3]string{}
 	for i, kp := range k.Pods {
 		if !kp.Present {
@@ -232,6 +253,15 @@ func runC06(k c06Case) (vs []mon.V, evaluated int, err error) {
 		r := c.Reconcile(sim.ActorERS, "ns1", crs)
 		evaluated++
 		vs = append(vs, mon.Check(r, on, nil)...)
+		o := c06Obs{}
+		if rs := c.ERS("ns1", crs); rs != nil {
+			o.Failed = oracle.RSCondTrue(&rs.Status, edsv1.ConditionTypeCanaryFailed)
+			o.Paused = oracle.RSCondTrue(&rs.Status, edsv1.ConditionTypeCanaryPaused)
+			if rc := oracle.RSCond(&rs.Status, edsv1.ConditionTypePodRestarting); rc != nil {
+				o.RestartFirst, o.RestartAt = rc.LastTransitionTime.UTC().Format("15:04:05"), rc.LastUpdateTime.UTC().Format("15:04:05")
+			}
+		}
+		obs = append(obs, o)
 	}
 	sync()
 	for _, s := range k.Steps {
@@ -252,7 +282,83 @@ func runC06(k c06Case) (vs []mon.V, evaluated int, err error) {
 		}
 		sync()
 	}
-	return vs, evaluated, nil
+	_ = evaluated
+	return vs, obs, nil
+}
+
+// TestC06Order: metamorphic relation - status.canary.nodes is a set, so evaluating the same canary pods in
+// another order must give the same Canary-Failed / Canary-Paused verdicts and the same restart timeline
+// (first and latest observed restart) after every sync.
+func TestC06Order(t *testing.T) {
+	rec := evid.New("TestC06Order", "C06", "the cases of TestC06Verdict with at least two canary pods, run twice through the real Reconcile: once as is and once with status.canary.nodes in a generated other order (pods stay on their nodes); oracle: after every one of the 1-4 syncs Canary-Failed, Canary-Paused (when not failed) and the PodRestarting first/latest times are equal in both runs; non-trivial = two pods with restarts at different times; distinct by case rendering + permutation")
+	t.Cleanup(func() {
+		if !t.Failed() {
+			rec.Done()
+		}
+	})
+	perms := [][]int{{1, 0, 2}, {0, 2, 1}, {2, 1, 0}, {1, 2, 0}, {2, 0, 1}}
+	rapid.Check(t, func(rt *rapid.T) {
+		k := c06Draw(rt)
+		perm := rapid.SampledFrom(perms).Draw(rt, "order")
+		// the order test needs at least two canary pods
+		pods := 0
+		for i := range k.Pods {
+			if k.Pods[i].Present {
+				pods++
+			}
+		}
+		if pods < 2 {
+			k.Pods[0].Present, k.Pods[1].Present = true, true
+			for _, i := range []int{0, 1} {
+				if len(k.Pods[i].Containers) == 0 {
+					k.Pods[i].StartedAgo = 10 * time.Minute
+					k.Pods[i].Containers = []c06Container{{Restarts: 1, FinishedAgo: []time.Duration{15 * time.Second, 5 * time.Minute}[i]}}
+				}
+			}
+			pods = 2
+		}
+		times := map[time.Duration]bool{}
+		for i := range k.Pods {
+			if !k.Pods[i].Present {
+				continue
+			}
+			for _, cc := range k.Pods[i].Containers {
+				if cc.Restarts > 0 {
+					times[cc.FinishedAgo] = true
+				}
+			}
+		}
+		nt := len(times) >= 2
+		rec.Case(nt, evid.FP(k.String(), perm), fmt.Sprintf("pods=%d", pods), fmt.Sprintf("syncs=%d", 1+len(k.Steps)))
+		if nt {
+			rec.Sample(map[string]interface{}{"case": k.String(), "order": perm})
+		}
+		_, a, err := runC06Order(k, nil)
+		if err != nil {
+			rt.Fatalf("%v", err)
+		}
+		_, b, err := runC06Order(k, perm)
+		if err != nil {
+			rt.Fatalf("%v", err)
+		}
+		rec.Steps(len(a) + len(b))
+		var vs []mon.V
+		for i := 0; i < len(a) && i < len(b); i++ {
+			x, y := a[i], b[i]
+			switch {
+			case x.Failed != y.Failed:
+				vs = append(vs, mon.V{Property: "C06", Monitor: "order-invariance", Sig: "C06/order-invariance/canary-failed-depends-on-node-order", Detail: fmt.Sprintf("after sync %d Canary-Failed is %v with status.canary.nodes as selected and %v in order %v (same pods)", i+1, x.Failed, y.Failed, perm)})
+			case !x.Failed && x.Paused != y.Paused:
+				vs = append(vs, mon.V{Property: "C06", Monitor: "order-invariance", Sig: "C06/order-invariance/canary-paused-depends-on-node-order", Detail: fmt.Sprintf("after sync %d Canary-Paused is %v with status.canary.nodes as selected and %v in order %v (same pods)", i+1, x.Paused, y.Paused, perm)})
+			case x.RestartFirst != y.RestartFirst || x.RestartAt != y.RestartAt:
+				vs = append(vs, mon.V{Property: "C06", Monitor: "order-invariance", Sig: "C06/order-invariance/restart-timeline-depends-on-node-order", Detail: fmt.Sprintf("after sync %d the PodRestarting condition records first/latest restart %s/%s with status.canary.nodes as selected and %s/%s in order %v (same pods)", i+1, x.RestartFirst, x.RestartAt, y.RestartFirst, y.RestartAt, perm)})
+			}
+			if len(vs) > 0 {
+				break
+			}
+		}
+		settle(rt, rec, vs, map[string]interface{}{"case": k.String(), "order": perm}, 1+len(k.Steps), "case: "+k.String())
+	})
 }
 
 func TestC06Verdict(t *testing.T) {
